@@ -34,7 +34,7 @@ func rulesC07(c *Ctx) {
 	ruleLockDiscipline(c, lockSel{classes: []string{"RIBHolder.mu"}, pkgs: []string{"server", "rib"}, pairing: true})
 	// R7.7 what Get reads is what was acknowledged: a replace removes and merges inside one exclusive section
 	// (no window in which an installed key is absent), and a held operation is installed under the instance it was sent to
-	ribFamily(c, famSel{mergeTotal: true})
+	ribFamily(c, famSel{mergeTotal: true, noTrace: true}) // … and an acknowledged operation was really written (no "already installed" shortcut that keeps stale fields)
 	ruleRetryAfterInstall(c)
 }
 
@@ -317,6 +317,40 @@ func ruleDoGetScope(c *Ctx) {
 		c.vanished(rule, fi.Name, "emission", "doGet never calls GetRIB")
 		return
 	}
+	// inside the loop over the selected instances: an instance that was found is walked — no path of one
+	// iteration leaves it (continue / falling through) without handing it to GetRIB; an iteration may only
+	// end early by returning (after reporting an error)
+	inspectNoFuncLit(fi.Decl.Body, func(n ast.Node) bool {
+		rs, ok := n.(*ast.RangeStmt)
+		if !ok {
+			return true
+		}
+		has := false
+		for _, call := range callsIn(rs.Body) {
+			if isMethod(calleeObj(info, call), ribPkg, "RIB", "NetworkInstanceRIB") {
+				has = true
+			}
+		}
+		if !has {
+			return true
+		}
+		ip, ipe := enumPaths(info, rs.Body.List, ev)
+		c.Sites += len(ip)
+		if ipe.overflow {
+			bad = "path enumeration of the instance loop incomplete"
+		}
+		for _, p := range ip {
+			li := idx(p, "lookup")
+			if li < 0 || p.End == "return" || p.End == "panic" {
+				continue
+			}
+			d := p.Events[li].Data.(*addEvData)
+			if d.ok != nil && factsAfter(info, p, li, len(p.Events)).Obj(d.ok) == +1 && !p.has("emit") {
+				bad = "an instance that was found is left without being walked (its entries are missing from the stream, so Get(ALL) is no longer the union of the per-table Gets): " + p.describe(c.P)
+			}
+		}
+		return false
+	})
 	c.check(bad == "", rule, fi.Name, "named → that instance; all → KnownNetworkInstances(); unknown instance → error, no emission", c.P.pos(fi.Decl.Pos()), fmt.Sprintf("%d paths", len(paths)), bad)
 	// the single name is the request's name: every assignment to the ranged
 	// list is the empty list, the request's name (appended or as a one-element
